@@ -42,6 +42,9 @@ type Case struct {
 	Concat int     `json:"concat"`
 	FailAt int     `json:"failAt"` // write call at which the writer starts failing
 	Upper  bool    `json:"upper"`
+	// Poison: an encoding that fails half-way (a collection whose last member is a
+	// LinearRing) precedes everything else; it must leave nothing behind.
+	Poison bool `json:"poison,omitempty"`
 }
 
 var layouts = []geom.Layout{geom.XY, geom.XYZ, geom.XYM, geom.XYZM, geom.XY, geom.XYZ, geom.XYM, geom.XYZM, geom.Layout(5), geom.NoLayout}
@@ -81,6 +84,7 @@ func genCase(t *rapid.T) Case {
 		Concat: rapid.IntRange(1, 3).Draw(t, "concat"),
 		FailAt: rapid.IntRange(0, 40).Draw(t, "failAt"),
 		Upper:  rapid.Bool().Draw(t, "upper"),
+		Poison: rapid.IntRange(0, 3).Draw(t, "poison") == 0,
 	}
 	if c.Reader == "chunks" {
 		n := rapid.IntRange(1, 12).Draw(t, "nchunks")
@@ -261,6 +265,22 @@ func prop(c Case) error {
 	}
 	want, _, refErr := refwkb.Encode(g, c.XDR, refMode)
 	mustFail := refErr != nil || (c.Mode == "wkb-err" && refwkb.HasEmptyPoint(g))
+	if c.Poison {
+		bad := geom.NewGeometryCollection()
+		ok := geom.NewLineString(geom.XYZ).MustSetCoords([]geom.Coord{{1, 2, 3}, {4, 5, 6}})
+		if err := bad.Push(ok, geom.NewLinearRing(geom.XY).MustSetCoords([]geom.Coord{{0, 0}, {1, 0}, {1, 1}, {0, 0}})); err != nil {
+			return fmt.Errorf("harness: cannot build the unencodable collection: %v", err)
+		}
+		if b, err := cd.marshal(bad, bo); err == nil {
+			return fmt.Errorf("%s Marshal accepted a collection with a LinearRing member (% x)", c.Mode, b)
+		}
+		if err := cd.write(io.Discard, bo, bad); err == nil {
+			return fmt.Errorf("%s Write accepted a collection with a LinearRing member", c.Mode)
+		}
+		if _, err := cd.hexEnc(bad, bo); err == nil {
+			return fmt.Errorf("%s hex Encode accepted a collection with a LinearRing member", c.Mode)
+		}
+	}
 	got, err := cd.marshal(t, bo)
 	if mustFail {
 		if err == nil {
@@ -404,7 +424,46 @@ func prop(c Case) error {
 	if !bytes.Equal(got, want) {
 		return fmt.Errorf("the slice returned by %s Marshal changed when another geometry was marshalled afterwards:\n now  % x\n was  % x", c.Mode, got, want)
 	}
+	// (h) the encoding is that of the coordinates as they are now: the first two
+	// ordinates of every coordinate are exchanged in place and the same object is
+	// marshalled again
+	if swapXY(t) {
+		g2, err := model.FromGeom(t)
+		if err != nil {
+			return fmt.Errorf("harness: geometry ill formed after exchanging ordinates: %v", err)
+		}
+		want2, _, refErr2 := refwkb.Encode(g2, c.XDR, refMode)
+		if refErr2 == nil && !(c.Mode == "wkb-err" && refwkb.HasEmptyPoint(g2)) {
+			got2, err := cd.marshal(t, bo)
+			if err != nil || !bytes.Equal(got2, want2) {
+				return fmt.Errorf("%s Marshal of the same object after its ordinates were exchanged in place:\n got  % x (%v)\n want % x", c.Mode, got2, err, want2)
+			}
+		}
+	}
 	return nil
+}
+
+// swapXY exchanges the first two ordinates of every coordinate of every leaf, in
+// place; false if there was nothing to exchange.
+func swapXY(t geom.T) bool {
+	if gc, ok := t.(*geom.GeometryCollection); ok {
+		any := false
+		for _, m := range gc.Geoms() {
+			if swapXY(m) {
+				any = true
+			}
+		}
+		return any
+	}
+	stride := t.Stride()
+	if stride < 2 {
+		return false
+	}
+	fc := t.FlatCoords()
+	for i := 0; i+1 < len(fc); i += stride {
+		fc[i], fc[i+1] = fc[i+1], fc[i]
+	}
+	return len(fc) > 0
 }
 
 type scanValuer interface {
